@@ -4,6 +4,7 @@
 -/
 import FtProofs.Lemmas.TrafficBasic
 import FtProofs.Lemmas.TrafficTools
+import FtProofs.Lemmas.TrafficBuffet
 set_option linter.unusedSectionVars false
 set_option linter.unusedSimpArgs false
 set_option linter.unusedVariables false
@@ -186,6 +187,66 @@ theorem nextuse_correct (mask : List Bool) (epl : Nat) (rows : List CRow) :
 
 example : (nextUse [true] 2 [⟨[0], [0], 0, false⟩, ⟨[1], [5], 5, true⟩, ⟨[2], [1], 1, false⟩]).map
     (fun x => x.2.map (·.stamp)) = [some [2], none, none] := by decide
+
+/-- what the main loop reads is the next-use annotation: the accesses built from a combined trace
+    carry, as `next`, the stamp of the first later access to the same line (when the mask the
+    next-use pass derives from the trace header is the one the main loop derives from `order`) -/
+theorem accsOf_nextOk (mask : List Bool) (epl : Nat) (shape : Option Nat) (rows : List CRow) :
+    nextOkB (accsOf mask mask epl shape rows) = true := by
+  unfold accsOf
+  rw [nextuse_correct]
+  induction rows with
+  | nil => rfl
+  | cons r rest ih =>
+    simp only [nextUseSpec, List.map_cons, nextOkB, Bool.and_eq_true, decide_eq_true_eq, ih, and_true]
+    simp only [mkAcc]
+    exact (find_map_spec mask epl shape (r.line mask epl) rest).symm
+
+/-! ## the buffet charges one fill per (line, eviction-window) pair whose first access is a read,
+       one write-back per pair containing a non-staging write -/
+
+/-- Buffet fills.  `accs` is one binding's next-use trace as the main loop reads it (`nextOkB`: the
+    annotation is what `_buildNextUseTrace` produces, see `accsOf_nextOk`); `winContigB`: the rows
+    of one eviction window are adjacent (true for stamp-sorted traces, `buffet_fills_sorted`).
+    Any capacity (the buffet never refuses a line), any line size, any evict-on depth `e`
+    (0 = root). -/
+theorem buffet_fills (e ls : Nat) (accs : List Acc)
+    (hn : nextOkB accs = true) (hc : winContigB e accs = true) :
+    (buffet1 e ls accs).reads = ls * fillsSpec e accs := by
+  have := (inv_run e ls accs {} [] [] [] [] (inv_init e accs (winContig_of_B e hc)) (nextOk_of_B hn)).1
+  simpa [buffet1, fillsSpec] using this
+
+/-- Buffet write-backs (`Acc.wb` is false for writes into the staging area beyond the shape). -/
+theorem buffet_writebacks (e ls : Nat) (accs : List Acc)
+    (hn : nextOkB accs = true) (hc : winContigB e accs = true) :
+    (buffet1 e ls accs).writes = ls * writebacksSpec e accs := by
+  have := (inv_run e ls accs {} [] [] [] [] (inv_init e accs (winContig_of_B e hc)) (nextOk_of_B hn)).2
+  simpa [buffet1, writebacksSpec, dirtyCount] using this
+
+/-- The same for well-formed (stamp-sorted) traces, from the rows of the combined trace. -/
+theorem buffet_fills_sorted (e ls epl : Nat) (mask : List Bool) (shape : Option Nat) (rows : List CRow)
+    (hs : stampsSortedB (rows.map (·.stamp)) = true) :
+    (buffet1 e ls (accsOf mask mask epl shape rows)).reads
+        = ls * fillsSpec e (accsOf mask mask epl shape rows) ∧
+    (buffet1 e ls (accsOf mask mask epl shape rows)).writes
+        = ls * writebacksSpec e (accsOf mask mask epl shape rows) := by
+  have hst := accsOf_stamps mask epl shape rows
+  have hc := winContig_of_sorted e (accs := accsOf mask mask epl shape rows) (by rw [hst]; exact hs)
+  have hn := nextOk_of_B (accsOf_nextOk mask epl shape rows)
+  have := inv_run e ls _ {} [] [] [] [] (inv_init e _ hc) hn
+  exact ⟨by simpa [buffet1, fillsSpec] using this.1,
+         by simpa [buffet1, writebacksSpec, dirtyCount] using this.2⟩
+
+/-- non-vacuity: a trace with a reuse inside a window, a reuse across windows, a write and a
+    staging write; evict-on the outer rank -/
+example :
+    let rows : List CRow := [⟨[0, 0], [0, 1], 1, false⟩, ⟨[0, 1], [0, 1], 1, true⟩,
+                             ⟨[1, 0], [1, 1], 1, false⟩, ⟨[1, 1], [1, 5], 5, true⟩]
+    let accs := accsOf [false, true] [false, true] 1 (some 4) rows
+    stampsSortedB (rows.map (·.stamp)) = true ∧ winContigB 1 accs = true ∧
+    fillsSpec 1 accs = 2 ∧ writebacksSpec 1 accs = 1 ∧
+    (buffet1 1 32 accs).reads = 64 ∧ (buffet1 1 32 accs).writes = 32 := by
+  decide
 
 end Traffic
 end Ft
